@@ -415,6 +415,11 @@ func c17Schedules(rep *report.Report, bound int, thorough bool) {
 	if err := dbA.Update(nil, func(ctx boltz.MutateContext) error { return w.tx1(ctx, noYield) }); err != nil {
 		panic(err)
 	}
+	snapBPath, _, err := dbA.Snapshot(dir + "/snapB.db")
+	if err != nil {
+		panic(err)
+	}
+	snapBBytes, _ := os.ReadFile(snapBPath)
 	_ = dbA.Close()
 	baseB := baseA // now holds B
 
@@ -460,13 +465,15 @@ func c17Schedules(rep *report.Report, bound int, thorough bool) {
 	mk("restored+writer", baseB, true, true)
 
 	type variant struct {
-		name     string
-		snapshot bool
-		rootUser bool
-		snapInTx bool // a read transaction that, after other threads had a chance to commit, snapshots what IT sees
+		name        string
+		snapshot    bool
+		rootUser    bool
+		snapInTx    bool // a read transaction that, after other threads had a chance to commit, snapshots what IT sees
+		twoRestores bool // a second restore (of a snapshot of the current state B) overlapping the first; no writer
 	}
-	variants := []variant{{"restore||reader||writer", false, false, false}, {"restore||reader||writer||Snapshot()", true, false, false}, {"restore||reader||writer||RootBucket-in-Update", false, true, false},
-		{"restore||reader||writer||View{SnapshotInTx}", false, false, true}}
+	variants := []variant{{"restore||reader||writer", false, false, false, false}, {"restore||reader||writer||Snapshot()", true, false, false, false}, {"restore||reader||writer||RootBucket-in-Update", false, true, false, false},
+		{"restore||reader||writer||View{SnapshotInTx}", false, false, true, false},
+		{"restore(A)||restore(B)||reader", false, false, false, true}}
 	for _, v := range variants {
 		v := v
 		var cur struct {
@@ -477,7 +484,7 @@ func c17Schedules(rep *report.Report, bound int, thorough bool) {
 			begin     [4]string // what each transaction saw when it began (state key for pruning)
 		}
 		vbound := bound
-		if !thorough && (v.snapshot || v.rootUser || v.snapInTx) {
+		if !thorough && (v.snapshot || v.rootUser || v.snapInTx || v.twoRestores) {
 			vbound = 1 // quick: the four-thread variants at one preemption (enough for the recursive read-lock deadlock)
 		}
 		rep.Set("preemption_bound["+v.name+"]", vbound)
@@ -511,14 +518,18 @@ func c17Schedules(rep *report.Report, bound int, thorough bool) {
 						cur.errs = append(cur.errs, "reader: "+err.Error())
 					}
 				})
-				vsync.Go0(func() {
-					if err := db.Update(boltz.NewMutateContext(context.Background()), func(ctx boltz.MutateContext) error {
-						cur.begin[1] = w.readTuple(ctx.Tx(), noYield)
-						return w.tx2(ctx, vsync.Yield)
-					}); err != nil {
-						cur.errs = append(cur.errs, "writer: "+err.Error())
-					}
-				})
+				if v.twoRestores {
+					vsync.Go0(func() { db.RestoreSnapshot(snapBBytes) })
+				} else {
+					vsync.Go0(func() {
+						if err := db.Update(boltz.NewMutateContext(context.Background()), func(ctx boltz.MutateContext) error {
+							cur.begin[1] = w.readTuple(ctx.Tx(), noYield)
+							return w.tx2(ctx, vsync.Yield)
+						}); err != nil {
+							cur.errs = append(cur.errs, "writer: "+err.Error())
+						}
+					})
+				}
 				if v.snapshot {
 					vsync.Go0(func() {
 						if _, _, err := db.Snapshot(dir + "/concurrent-snap.db"); err != nil {
@@ -592,6 +603,8 @@ func c17Schedules(rep *report.Report, bound int, thorough bool) {
 			var final *dump.Tree
 			_ = cur.db.View(func(tx *bbolt.Tx) error { final = stripMeta(dump.Tx(tx)); return nil })
 			switch {
+			case v.twoRestores && final.Equal(refs[0].image):
+				rep.Outcome("final=restored(B)")
 			case final.Equal(refs[2].image):
 				rep.Outcome("final=restored")
 			case final.Equal(refs[3].image):
@@ -624,6 +637,12 @@ func c17Schedules(rep *report.Report, bound int, thorough bool) {
 				if sdb != nil {
 					_ = sdb.Close()
 				}
+			}
+			if v.twoRestores {
+				if cur.listeners != 2 {
+					rep.Violation("C17|restore-listener-count|"+v.name, fmt.Sprintf("%s: restore listener ran %d times for two restores", v.name, cur.listeners), replay)
+				}
+				return
 			}
 			if cur.listeners != 1 {
 				rep.Violation("C17|restore-listener-count|"+v.name, fmt.Sprintf("%s: restore listener ran %d times", v.name, cur.listeners), replay)
